@@ -7,12 +7,14 @@ from .objfam import spec_tables
 CFG = 'SPECIFICATION TraceSpec\nINVARIANT Report\nPOSTCONDITION TraceAccepted\nCHECK_DEADLOCK FALSE\n'
 
 
-def split_file(path, parts, maxlines=4000):
+def split_file(path, parts, maxlines=6000):
+    """at least `parts` files (one per CPU), none longer than maxlines events: TLC's cost per event grows with the
+    depth of the trace (the state carries every live object), so long traces are cut"""
     lines = open(path).read().splitlines()
     if not lines:
         return []
-    n = max(1, min(parts, (len(lines) + maxlines - 1) // maxlines if len(lines) > maxlines * parts else parts))
-    n = min(n, len(lines))
+    n = max(parts, (len(lines) + maxlines - 1) // maxlines)
+    n = max(1, min(n, len(lines)))
     size = (len(lines) + n - 1) // n
     out = []
     for i in range(n):
@@ -71,7 +73,7 @@ def validate_one(ctx, trace, idx, module='Trace', cfg=None):
     if rep is None or p.returncode != 0 or 'Model checking completed. No error has been found.' not in txt:
         keep = os.path.join(core.EVID, 'tlc-error-%s-trace%d.txt' % (ctx.pid, idx))
         os.makedirs(core.EVID, exist_ok=True)
-        open(keep, 'w').write(txt[-20000:])
+        open(keep, 'w').write(txt[:6000] + '\n[...]\n' + txt[-14000:])
         raise core.Inconclusive('trace validation did not complete (rc=%d); TLC output kept in %s\n%s' % (p.returncode, keep, txt[-1200:]))
     return dict(trace=trace, events=rep['events'], bad=rep['bad'], generated=int(m.group(1)) if m else 0,
                 distinct=int(m.group(2)) if m else 0, wall_s=round(time.time() - t, 1))
